@@ -56,6 +56,7 @@ def cellJ : Cell → Json
         | .graphs gs => obj [("graphs", natsJ gs)])]
   | .func f => obj [("k", "func"), ("domain", f.domain), ("name", f.name), ("overload", f.overload),
       ("graph", natJ f.graph), ("attrs", pairsJ natJ f.attrs)]
+  | .tensor nm => obj [("k", "tensor"), ("name", optJ Json.str nm)]
   | .model m => obj [("k", "model"), ("graph", natJ m.graph), ("funcs", natsJ m.funcs),
       ("header", natJ m.header), ("dev", natJ m.dev), ("props", natJ m.props),
       ("mstore", natJ m.mstore)]
@@ -204,6 +205,7 @@ def asCell (j : Json) : Except String Cell := do
     return .model { graph := ← getNat j "graph", funcs := ← getNats j "funcs",
                     header := ← getNat j "header", dev := ← getNat j "dev",
                     props := ← getNat j "props", mstore := ← getNat j "mstore" }
+  | "tensor" => return .tensor (← getOpt j "name" asStr)
   | k => throw s!"unknown cell kind {k}"
 
 def asWhich (j : Json) : Except String Which := do
@@ -240,6 +242,14 @@ def asEdit (j : Json) : Except String Edit := do
     return .appendNode (← getNat j "g") (← getStr j "name") (← getStr j "opname") ins outs
   | "appendOutput" => return .appendOutput (← getNat j "g") (← getNat j "v")
   | "popOutput" => return .popOutput (← getNat j "g")
+  | "setNodeDomain" => return .setNodeDomain (← getNat j "n") (← getStr j "s")
+  | "setNodeOverload" => return .setNodeOverload (← getNat j "n") (← getStr j "s")
+  | "setNodeVersion" => return .setNodeVersion (← getNat j "n") (← getOpt j "ver" asInt)
+  | "setNodeDoc" => return .setNodeDoc (← getNat j "n") (← getOpt j "s" asStr)
+  | "setGraphDoc" => return .setGraphDoc (← getNat j "g") (← getOpt j "s" asStr)
+  | "setFuncName" => return .setFuncName (← getNat j "f") (← getStr j "s")
+  | "setModelHeader" => return .setModelHeader (← getNat j "mo") (← getNat j "p")
+  | "setDev" => return .setDev (← getNat j "n") (← (← getArr j "dev").mapM asDev)
   | e => throw s!"unknown edit {e}"
 
 def outcomeJ : Except Err (Option Nat) → Json
@@ -294,6 +304,13 @@ def handle : Handler := fun m j =>
       return obj [("outcome", outcomeJ r), ("defined", before.isSome),
                   ("same_after", (before.map sgraphJ) == a), ("equal", a == b)]
     | _ => return obj [("outcome", outcomeJ r), ("defined", before.isSome)]
+  | "clone.functionalize" => some do
+    -- `functionalize(pass)(model)` with the pass given as the edit history it performs
+    let w0 ← (← getArr j "world").mapM asCell
+    let edits ← (← getArr j "edits").mapM asEdit
+    let (r, w1) := functionalize ((j.getObjValAs? Nat "fuel").toOption.getD 64) (fun _ _ => edits)
+      (← getNat j "mo") w0
+    return obj [("outcome", outcomeJ (r.map some)), ("world", Json.arr (w1.map cellJ).toArray)]
   | "clone.history" => some do
     -- a clone step followed by `runHistory` on a list of edits
     let w0 ← (← getArr j "world").mapM asCell
